@@ -43,6 +43,7 @@ def plan(tier, seed):
         ch.append({"key": f"dispatch/{mask:02d}", "kind": "dispatch", "mask": mask, "cost": 5 ** BOUNDS[tier]["hist_depth"] // 50})
     ch.append({"key": "get_handlers", "kind": "get_handlers", "cost": 50})
     ch.append({"key": "methods/all-commands", "kind": "methods", "cost": 300})
+    ch.append({"key": "dispatch/raising-handlers", "kind": "raising", "cost": 300})
     return ch
 
 
@@ -143,6 +144,26 @@ def chunk_ids(chunk, acc):
         acc.case(bid, nontrivial=True, outcome=str(keys[0])[:60])
         if keys[0] != keys[1]:
             acc.fail("C19/id/keys-not-stable-for-same-id", {"kind": "id", "beacon_id": bid}, str(keys[0])[:100], str(keys[1])[:100])
+    # the session keys belong to the id: leaving out / giving any of the optional arguments does not change them
+    full = dict(pid=4321, user="u", computer="c", process="p", internal_ip="10.0.0.5", arch="x64", barch="x64", sleeptime=1000, jitter=5, user_agent="UA", host_header="h.example", domain="c2.example.com", port=8080, scheme="http", high_integrity=True)
+    for bid in (1234, 2, 0x7FFFFFFE):
+        acc.states += 1
+        seen_keys = {}
+        for omit in [()] + [(k,) for k in full] + [tuple(full)]:
+            kw = {k: v for k, v in full.items() if k not in omit}
+            with Seams():
+                cl = HttpBeaconClient()
+                res = call(cl.run, cfg, dry_run=True, beacon_id=bid, **kw)
+            acc.transitions += 1
+            acc.case(("optional-args", bid, omit), nontrivial=True, outcome=res if isinstance(res, str) else cl.aes_rand[:2])
+            if isinstance(res, str):
+                acc.fail("C19/id/run-failed", {"kind": "id", "beacon_id": bid, "omitted": list(omit)}, "configured client", res)
+                continue
+            seen_keys[omit] = (cl.beacon_id, cl.aes_rand, cl.aes_key, cl.hmac_key)
+        if len(set(seen_keys.values())) > 1:
+            ref = seen_keys[()]
+            odd = next(o for o, v in seen_keys.items() if v != ref)
+            acc.fail("C19/id/keys-depend-on-optional-arguments", {"kind": "id", "beacon_id": bid, "omitted": list(odd)}, ref[1].hex(), seen_keys[odd][1].hex())
     # one client object configured again and again (same configuration object, different ids, in both orders): after
     # each run everything the client encrypts with belongs to the id of that run
     for seq in ((1234, 4242), (4242, 1234), (2, 2, 4), (1234, -1, 4242), (6, 8, 6)):
@@ -509,6 +530,79 @@ def chunk_methods(chunk, acc):
     acc.sample({"commands": n, "client": "on_<command> method for every command with an unambiguous name + on_catch_all", "oracle": "each task reaches exactly its own method once (the catch-all only when there is no method)"})
 
 
+def run_raising(which, script, silent):
+    """Handlers h0..h3 for command A and catch-alls c0..c2; the ones named in `which` raise (or return something that
+    cannot be sent). Every handler registered for a task's command is still invoked exactly once."""
+    from dissect.cobaltstrike import c2
+    from dissect.cobaltstrike.client import HttpBeaconClient
+
+    calls = []
+    state = {"i": -1}
+
+    class Cl(HttpBeaconClient):
+        def get_task(self):
+            state["i"] += 1
+            if state["i"] >= len(script):
+                raise StopLoop()
+            t = script[state["i"]]
+            return None if t == "none" else make_task(c2, TASK_CMD[t], state["i"])
+
+        def send_callback(self, callback_id, data):
+            calls.append((state["i"], "CALLBACK"))
+
+    cl = Cl()
+
+    def mk(name):
+        def h(task):
+            calls.append((state["i"], name))
+            if name in which:
+                if which[name] == "raise":
+                    raise RuntimeError("handler failed")
+                return which[name]  # a return value that send_callback(*response) cannot take
+            return None
+
+        return h
+
+    for i in range(4):
+        cl.handle(CMD_A)(mk(f"h{i}"))
+    for i in range(3):
+        cl.catch_all()(mk(f"c{i}"))
+    cfg = fresh_config()
+    with Seams():
+        r = call(cl.run, cfg, dry_run=True, beacon_id=2, user="u", computer="c", process="p", silent=silent, sleeptime=1000, jitter=0)
+        if isinstance(r, str):
+            return "C19/dispatch/setup", "dry run", r
+        try:
+            cl._beacon_loop()
+            return "C19/dispatch/loop-ended", "StopLoop", "returned"
+        except StopLoop:
+            pass
+        except Exception as e:  # noqa
+            return "C19/dispatch/loop-exception", "StopLoop", f"{type(e).__name__}: {e}"
+    for i, t in enumerate(script):
+        got = sorted(n for (idx, n) in calls if idx == i and n != "CALLBACK")
+        exp = {"A": ["h0", "h1", "h2", "h3"], "B": ["c0", "c1", "c2"], "none": None}[t]
+        if exp is None:
+            continue
+        if got != exp:
+            return "C19/dispatch/handler-skipped-after-a-failing-handler", {"task_index": i, "task": t, "handlers": exp}, {"task_index": i, "invoked": got}
+    return None
+
+
+def chunk_raising(chunk, acc):
+    bad_returns = ("raise", 5, (1,), ("x", "y", "z"))
+    for name in ("h0", "h1", "h2", "h3", "c0", "c1", "c2"):
+        for how in bad_returns:
+            for script in (("A", "B"), ("B", "A", "A"), ("A", "none", "B")):
+                acc.states += 1
+                acc.transitions += len(script)
+                bad = run_raising({name: how}, script, True)
+                acc.case(("raising", name, str(how), script), nontrivial=True, outcome=bad[0] if bad else "ok")
+                if bad:
+                    acc.fail(bad[0], {"kind": "raising", "handler": name, "how": str(how), "tasks": list(script)}, bad[1], bad[2])
+    acc.sample({"handlers": "4 for command A, 3 catch-alls", "failing": "each one in turn: raises / returns a value that cannot be sent as a callback", "oracle": "every other handler of the task still runs exactly once"})
+
+
 def run_chunk(chunk, acc):
     globals()["chunk_" + chunk["kind"]](chunk, acc)
 
@@ -517,6 +611,11 @@ def replay(case):
     from vmc.runner import Acc
 
     a = Acc("replay", "quick", 0)
+    if case["kind"] == "raising":
+        how = case["how"]
+        how = {"raise": "raise", "5": 5, "(1,)": (1,), "('x', 'y', 'z')": ("x", "y", "z")}[how]
+        bad = run_raising({case["handler"]: how}, tuple(case["tasks"]), True)
+        return {"ok": bad is None, "expected": bad[1] if bad else None, "observed": bad[2] if bad else None}
     if case["kind"] == "methods":
         bad = run_methods(case["with_methods"], case["order"])
         return {"ok": bad is None, "expected": bad[1] if bad else None, "observed": bad[2] if bad else None}
